@@ -213,6 +213,9 @@ def _parse_interval(interval_str):
   if not m:
     raise ValueError("Not a valid interval '%s'" % interval_str)
   num = int(m.group("num"))
+  if num < 1:
+    # With a zero interval the series would never advance (it repeats one time or loops forever).
+    raise ValueError("Interval multiple must be at least 1 in '%s'" % interval_str)
   unit = m.group("unit")
   unit = _SINGULAR_UNITS.get(unit, unit)
   if unit not in _VALID_UNITS:
